@@ -23,6 +23,11 @@ type evObl struct {
 func CmdCheck(cfg RunConfig) int {
 	t0 := time.Now()
 	evPath := filepath.Join(cfg.VerifDir, "evidence", cfg.Prop+".json")
+	if d := os.Getenv("VERIF_EVIDENCE_DIR"); d != "" {
+		// used by bin/mutcheck: runs on a deliberately modified tree must not overwrite the evidence of the real tree
+		os.MkdirAll(d, 0o755)
+		evPath = filepath.Join(d, cfg.Prop+".json")
+	}
 	os.Remove(evPath)
 	pr, lsec, err := loadAll(cfg)
 	if err != nil {
